@@ -144,7 +144,7 @@ class C06(Prop):
         "written_file", "open_written", "open_rejects", "findName_stored", "findName_alias", "findName_absent", "findNumber_sorted",
         "fileInfo_spec", "internal_eq_external", "auto_switch_trigger", "external_is_permanent", "history_write", "history_index_correct", "history_alias", "history_enumeration", "findSubseq_spec", "findSubseq_erange", "exCross_wf",
         "findSubseq_alias", "findSubseq_absent", "open_any_bytes", "bsearch_any_array", "findName_any_index", "findName_no_fault",
-        "findNumber_any_index", "fileInfo_any_index", "findSubseq_any_index", "written_index_no_alias_chain", "truncated_index_never_wrong", "addFile_never_checks_names",
+        "findNumber_any_index", "fileInfo_any_index", "findSubseq_any_index", "written_index_no_alias_chain", "truncated_index_never_wrong", "truncated_index_same_answers", "addFile_never_checks_names",
         "cross_class_duplicate_rejected")]
     claimed = True
     technique = ("Lean 4 proof about an executable model of esl_ssi.c (writer, on-disk layout, binary search, alias indirection) "
@@ -476,8 +476,8 @@ class C06(Prop):
     @staticmethod
     def _corrupt_safe(b):
         """Can the lookups be called on this image?  The only outcome of the model that the C code cannot answer with a
-        status is `nohalt` (alias -> alias recursion; `Ssi.NoAliasChain` of Robust.lean excludes it): images in which a
-        stored alias names another stored alias are not used. Unterminated key/name fields, file handles >= nfiles and
+        status is `nohalt` (unbounded alias -> alias recursion): images whose alias records form a cycle are not used
+        (acyclic chains are: the model's fuel of 100000 levels is never reached). Unterminated key/name fields, file handles >= nfiles and
         rpl = 0 are answered with a status since the damaged-index repair. Returns None (do not use the image) or True."""
         import struct
         if len(b) < 78:
@@ -490,16 +490,30 @@ class C06(Prop):
             return None
         def cs(o, n):
             x = bytes(b[o:o + n]); return x.split(b"\0")[0]
-        skeys = {cs(soff + srec * j, slen) for j in range(ns_) if soff + srec * j + slen <= len(b)}
-        targets = {cs(soff + srec * j + slen, plen) for j in range(ns_) if soff + srec * j + slen + plen <= len(b)}
-        if skeys & targets:
-            return None                           # an alias naming an alias: possible unbounded recursion
+        # alias -> target edges of every readable secondary record; a CYCLE could make esl_ssi_FindName recurse without end
+        # (acyclic alias -> alias chains are fine: the recursion just goes one level deeper per link)
+        edges = {}
+        for j in range(ns_):
+            o = soff + srec * j
+            if o + slen + plen <= len(b):
+                edges.setdefault(cs(o, slen), set()).add(cs(o + slen, plen))
+        state = {}
+        def cyclic(a):
+            if state.get(a) == 1: return True
+            if state.get(a) == 2: return False
+            state[a] = 1
+            for t in edges.get(a, ()):
+                if t in edges and cyclic(t): return True
+            state[a] = 2
+            return False
+        if any(cyclic(a) for a in list(edges)):
+            return None
         return True
 
     def gen_corrupt(self, rng, name):
         """Open + Find* on TRUNCATED / CORRUPTED / UNSORTED indices (theorems `findName_any_index`, `findName_no_fault`,
         `findNumber_any_index`, `fileInfo_any_index`, `open_any_bytes`): a small valid image is damaged in its key sections,
-        counts, widths or offsets, loses field terminators, or is cut anywhere; only images in which an alias names another alias
+        counts, widths or offsets, loses field terminators, or is cut anywhere; only images whose alias records form a cycle
         are filtered out (`_corrupt_safe`); every lookup is compared exactly with the model, under ASan/UBSan"""
         import struct
         kg = KeyGen(rng, 16)
@@ -522,7 +536,7 @@ class C06(Prop):
                 break
             b = bytearray(img)
             kind = rng.choice(["trunc", "trunc", "swapP", "revP", "dupP", "rotP", "swapS", "revS", "dupS", "countP", "countS", "poff", "soff",
-                               "keybyte", "target", "widths", "fh", "geom", "zerofill", "garbage-tail", "unterm", "unterm", "zerowidth"])
+                               "keybyte", "target", "widths", "fh", "geom", "zerofill", "garbage-tail", "unterm", "unterm", "zerowidth", "chain"])
             if kind == "trunc":
                 cut = rng.choice([poff, poff + 1, poff + plen - 1, poff + plen, poff + plen + 1, poff + plen + 2, poff + plen + 10, poff + prec - 1, poff + prec,
                                   soff - 1, soff, soff + 1, soff + slen - 1, soff + slen, soff + slen + plen - 1, len(b) - 1, len(b) - plen,
@@ -563,6 +577,13 @@ class C06(Prop):
                 j = rng.randrange(ns_)
                 t = rng.choice([b"no-such-key", sorted(pk)[0][:-1] or b"q", sorted(al)[0], sorted(pk)[-1], b""])[:max(0, plen - 1)]
                 b[soff + srec * j + slen:soff + srec * j + slen + plen] = t.ljust(plen, b"\0")
+            elif kind == "chain" and ns_ >= 2:
+                # alias -> alias -> (alias ->) primary key: esl_ssi_FindName follows the chain by recursion
+                js = rng.sample(range(ns_), min(ns_, rng.choice([2, 3])))
+                als = sorted(al)
+                for x, y in zip(js, js[1:]):
+                    t = als[y][:max(0, plen - 1)]
+                    b[soff + srec * x + slen:soff + srec * x + slen + plen] = t.ljust(plen, b"\0")
             elif kind == "widths":
                 at, v = rng.choice([(34, plen), (38, slen), (46, prec), (50, srec), (30, flen), (42, frec)])
                 put(b, ">I", at, max(0, v + rng.choice([-1, 1, 2, -2])))
